@@ -1,5 +1,22 @@
+//! vh-net: HTTP helpers — request decoding, multipart uploads, multipart/mixed
+//! subscription framing, GraphiQL page.
+
+mod c23;
+mod c24;
+mod c26;
+mod c34;
+mod common;
+
 fn main() {
     let id = std::env::args().nth(1).unwrap_or_default();
-    println!("INCONCLUSIVE property={id} reason=vh-net has no check for this property yet");
-    std::process::exit(2);
+    match id.as_str() {
+        "C23" => c23::main(),
+        "C24" => c24::main(),
+        "C26" => c26::main(),
+        "C34" => c34::main(),
+        other => {
+            println!("INCONCLUSIVE property={other} reason=vh-net has no check for this property");
+            std::process::exit(2);
+        }
+    }
 }
